@@ -80,6 +80,9 @@ class ReferenceImpl(Derivable, Impl):
     def on_inherit(self, updater, bases):
 
         self.model.clear_obj(self)
+        # Values that read this reference by attribute path
+        # (possibly from other spaces) depend on what it is bound to
+        self.model.clear_attr_referrers(self)
         refmode = bases[0].refmode
         if bases[0].has_interface():
 
